@@ -7,7 +7,7 @@ import time
 from . import lib
 
 
-def build_vsim():
+def build_vsim(profile="dev"):
     lib.HARNESS = lib.harness_dir()
     os.makedirs(lib.WORK, exist_ok=True)
     import fcntl
@@ -16,17 +16,19 @@ def build_vsim():
     try:
         env = dict(os.environ, CARGO_NET_OFFLINE="true", RUSTUP_TOOLCHAIN="1.88.0")
         t0 = time.time()
-        r = subprocess.run(["cargo", "build", "--offline", "-q", "-p", "simdev", "--bins"], cwd=lib.HARNESS, env=env,
-                           capture_output=True, text=True)
+        cmd = ["cargo", "build", "--offline", "-q", "-p", "simdev", "--bins"]
+        if profile != "dev":
+            cmd += ["--profile", profile]
+        r = subprocess.run(cmd, cwd=lib.HARNESS, env=env, capture_output=True, text=True)
         if r.returncode != 0:
             import sys
             sys.stderr.write(r.stderr[-4000:])
             raise lib.ToolError("simdev / repository does not build with --cfg ethercrab_verif")
-        lib.log(f"simdev built in {time.time() - t0:.1f}s")
+        lib.log(f"simdev built ({profile}) in {time.time() - t0:.1f}s")
     finally:
         fcntl.flock(lock, fcntl.LOCK_UN)
         lock.close()
-    return os.path.join(lib.HARNESS, "target", "debug")
+    return os.path.join(lib.HARNESS, "target", "debug" if profile == "dev" else profile)
 
 
 class SimCheck:
@@ -71,13 +73,13 @@ class SimCheck:
                                    f"{module} model violates {r.violated} (the design as specified breaks the property)")
         return r
 
-    def run_cases(self, tag, cases, binary="vsim", engine=None):
+    def run_cases(self, tag, cases, binary="vsim", engine=None, bindir=None):
         cf = os.path.join(self.wd, f"{tag}.cases.ndjson")
         tf = os.path.join(self.wd, f"{tag}.trace.ndjson")
         with open(cf, "w") as fh:
             for c in cases:
                 fh.write(json.dumps(c) + "\n")
-        lib.run_harness(os.path.join(self.bindir, binary), [engine or self.engine, cf, tf, lib.seed()], timeout=3000)
+        lib.run_harness(os.path.join(bindir or self.bindir, binary), [engine or self.engine, cf, tf, lib.seed()], timeout=3000)
         n = sum(1 for _ in open(tf))
         if n != len(cases):
             raise lib.ToolError(f"{tag}: {binary} wrote {n} lines for {len(cases)} cases")
@@ -98,6 +100,10 @@ class SimCheck:
                                 f"{r.error or r.out[-600:]}")
         viols = [j for j in r.json if j.get("kind") == "VIOL"]
         divs = [j for j in r.json if j.get("kind") == "DIVERGE"]
+        if os.environ.get("VERIF_KEEP"):
+            with open(os.path.join(lib.WORK, f"{self.pid}-{tag}-judgements.ndjson"), "w") as fh:
+                for j in viols + divs:
+                    fh.write(json.dumps(j) + "\n")
         self.states += r.distinct
         self.transitions += r.generated
         self.total += n
